@@ -21,8 +21,6 @@ class TreeBanditMonitor(Monitor):
     def start(self, ctx):
         c = ctx.case
         self.tm = TreeMon(c["algo"], ctx.algo, tree_params(c["algo"], c["params"], c["n"]), self, ctx.hub)
-        if not self.tm.in_band:
-            self.obs["out_of_band_not_judged"] += 1
 
     def on_pull(self, ctx, t, p):
         self.tm.on_pull(p)
